@@ -279,6 +279,27 @@ pub fn run(ctx: &Ctx) -> Report {
     }
     total.merge(st);
     total.exhaustive_parts.push("chains of 10..300 operands and 10..100 nested negations ending in each kind of action (mode choice must not depend on the size of the tree)".into());
+    // every number of distinct matchers (each takes two generated numbers) before the first printers:
+    // the printer numbers and tags then take every value 2..150, and the values around 256 and 512
+    let mut stm = Stats::new();
+    let mut ms: Vec<usize> = (0..=72).collect();
+    ms.extend([125, 126, 127, 128, 129, 253, 254, 255, 256, 257]);
+    for m in ms {
+        for tail in [vec![Act::FPrint("first.out".into()), Act::FPrint0("second.out".into())], vec![Act::Print0, Act::FPrint("f".into())], vec![Act::Printf(vec![FEl::F(Fld::NameNoStart)]), Act::Print]] {
+            let mut e = E::T(Tst::False);
+            for i in 0..m {
+                e = E::or(e, E::T(if i % 3 == 0 { Tst::IName(format!("m{i}")) } else { Tst::Name(format!("m{i}*")) }));
+            }
+            e = E::or(e, E::T(Tst::True));
+            for a in &tail {
+                e = E::and(e, E::A(a.clone()));
+            }
+            let v = judge(&e);
+            stm.record(&v, stable_hash(&e), true, || json!({"kind": "matchers-before", "matchers": m, "tree": term::encode_expr(&e)}));
+        }
+    }
+    stm.samples.truncate(1);
+    total.merge(stm);
     // chains nested to the left and to the right, the only action at a chosen operand position
     let spines = crate::combo::spine_trees(ctx.tier.pick(300, 1000));
     let sp = run_shards(16, |shard| {
@@ -310,7 +331,7 @@ pub fn run(ctx: &Ctx) -> Report {
     let rnd = run_shards(16, |shard| {
         let mut st = Stats::new();
         let leaf = prop_oneof![5 => routing_action().prop_map(E::A), 1 => Just(E::T(Tst::True)), 1 => Just(E::T(Tst::False)), 1 => Just(E::T(Tst::Name("a".into()))), 1 => Just(E::T(Tst::IName("*.C".into())))];
-        let strat = (gen::expr_over(leaf.boxed(), 4, 12, true), prop_oneof![3 => Just(None), 1 => Just(Some(0u32)), 1 => Just(Some(1u32)), 1 => Just(Some(2u32)), 1 => gen::count_u32().prop_map(Some)]);
+        let strat = (gen::related(gen::expr_over(leaf.boxed(), 4, 12, true), true), prop_oneof![3 => Just(None), 1 => Just(Some(0u32)), 1 => Just(Some(1u32)), 1 => Just(Some(2u32)), 1 => gen::count_u32().prop_map(Some)]);
         run_prop(&mut st, ctx.seed, "C10", shard as u64, cases / 16, &strat, |(t, th)| judge_with_threads(t, *th), |(t, th)| {
             let mut j = case_json(t);
             j["threads_option"] = json!(th);
